@@ -11,16 +11,25 @@ import os
 import tempfile
 from vlib import tg
 from bounded.common import Skip
+from bounded import lib_restructure as R
 
 RULE = ("all tree shapes with n<=N tokens (every internal node >=2 children, all discontinuous "
         "shapes included) plus seeded random trees with unary nodes and shuffled child lists; "
         "each (clause, tree) is one evaluation; non-trivial = distinct tree with at least one "
-        "discontinuous node")
+        "discontinuous node.  Clause current_structure: the same shapes, analysed, restructured "
+        "in place (every well-formedness-keeping re-attachment of one token or constituent to "
+        "another constituent for n<=M, those that change some node's gap degree for n=M+1, a "
+        "seeded sample on the random trees; and transform.root_attach on every shape), analysed "
+        "again on the same Tree objects; non-trivial = the change alters some node's gap degree")
 
 
 def BOUNDS(ctx):
     return {"exhaustive_shapes_n": 5 if ctx.quick else 6,
-            "random_trees": 300 if ctx.quick else 6000, "random_max_n": 12}
+            "random_trees": 300 if ctx.quick else 6000, "random_max_n": 12,
+            "all_moves_n": 4 if ctx.quick else 5,
+            "gap_changing_moves_n": 5 if ctx.quick else 6,
+            "gap_changing_moves_cap": None if ctx.quick else 20000,
+            "moves_per_random_tree": 2}
 
 
 SITES = {
@@ -32,6 +41,7 @@ SITES = {
     "three_way": "trees.treeoutput.brackets",
     "disco_order": "trees.treeanalysis.disco_order",
     "tasks": "trees.treeanalysis.GapDegree.run",
+    "current_structure": "trees.treeanalysis.gap_degree_node",
 }
 
 
@@ -180,7 +190,85 @@ def c_tasks(ctx, specs):
     return None
 
 
-CLAUSES = {"node_gap_degree": c_node_gap_degree, "blocks": c_blocks,
+def _analyse(ctx, t, when):
+    """every analysis entry point of the property on the Tree objects of `t`, against the
+    set-based expectation for the structure `t` has NOW (tg.model reads the children lists)"""
+    trees, ta = ctx.mod("trees"), ctx.mod("treeanalysis")
+    to, gr, ga = ctx.mod("treeoutput"), ctx.mod("grammar"), ctx.mod("grammaranalysis")
+    m = tg.model(t)
+    ys = m["yield"]
+    nodes = _nodes(t)
+    for n in nodes:
+        y = sorted(ys[id(n)])
+        what = "%s, node %s %s: " % (when, n.data.get("label"), y)
+        exp = tg.gap_degree_of_set(y) if n.children else 0
+        got = ta.gap_degree_node(n)
+        if got != exp:
+            return (what + "gap_degree_node == %d" % exp, got)
+        got = ta.has_gaps(n)
+        if bool(got) != (exp > 0):
+            return (what + "has_gaps == %s" % (exp > 0), got)
+        got = [[x.data["num"] for x in b] for b in trees.terminal_blocks(n)]
+        if got != tg.runs_of_set(y):
+            return (what + "terminal_blocks == %s" % tg.runs_of_set(y), got)
+        if not n.children:
+            gt = "none"
+        elif exp > 0:
+            gt = "pass"
+        elif any(c.children and tg.gap_degree_of_set(ys[id(c)]) > 0 for c in n.children):
+            gt = "source"
+        else:
+            gt = "none"
+        got = ta.gap_type(n)
+        if got != gt:
+            return (what + "gap_type == %r" % gt, got)
+    degs = [tg.gap_degree_of_set(y) for _, y in m["cons"]]
+    top = max(degs)
+    got = ta.gap_degree(t)
+    if got != top:
+        return ("%s: gap_degree == %d" % (when, top), got)
+    gd = ta.GapDegree()
+    gd.run(t)
+    exp_node = {}
+    for d in degs:
+        exp_node[d] = exp_node.get(d, 0) + 1
+    if gd.gaps_per_node != exp_node or gd.gaps_per_tree != {top: 1}:
+        return ({"when": when, "per_node": exp_node, "per_tree": {top: 1}},
+                {"per_node": gd.gaps_per_node, "per_tree": gd.gaps_per_tree})
+    refused = False
+    try:
+        to.brackets(t, io.StringIO())
+    except ValueError:
+        refused = True
+    notcf = not ga.is_contextfree(gr.extract(t, {}, {}))
+    if not ((top > 0) == refused == notcf):
+        return ("%s: discontinuous=%s == writer refuses == grammar not CF" % (when, top > 0),
+                {"refused": refused, "not_cf": notcf})
+    return None
+
+
+def c_current_structure(ctx, w):
+    """analysis follows the current structure: the statements of the property hold for a tree
+    whose Tree objects were analysed before and then restructured in place.
+    w = {"spec", "move": {"node": path, "to": path}}  (re-attachment through the Tree API, see
+    lib_restructure) or {"spec", "op": "root_attach"} (transform.root_attach, in place)"""
+    trees = ctx.mod("trees")
+    t = tg.build(w["spec"], trees)
+    n = len(tg.spec_leaves(w["spec"]))
+    bad = _analyse(ctx, t, "fresh tree")
+    if bad:
+        return bad
+    if "move" in w:
+        R.move_real(t, w["move"])
+        assert not tg.wf_errors(t, expect_n=n), "the oracle's own move broke the tree"
+    else:
+        r = ctx.mod("transform").root_attach(t)
+        if r is not t or tg.wf_errors(t, expect_n=n):
+            raise Skip()                 # root_attach is judged by C12 / C04
+    return _analyse(ctx, t, "after the change")
+
+
+CLAUSES = {"current_structure": c_current_structure, "node_gap_degree": c_node_gap_degree, "blocks": c_blocks,
            "tree_gap_degree": c_tree_gap_degree, "has_gaps": c_has_gaps, "gap_type": c_gap_type,
            "three_way": c_three_way, "disco_order": c_disco_order, "tasks": c_tasks}
 
@@ -193,8 +281,40 @@ def _nt(spec):
     return tg.spec_str(spec) if disc else None
 
 
+def _changes_after_root_attach(spec):
+    # cheap: root_attach can only change something if the root has a child that is neither
+    # sentence-initial nor sentence-final (the expectation itself is taken from the real tree)
+    n = len(tg.spec_leaves(spec))
+    for c in spec["c"]:
+        ys = [l["n"] for l in tg.spec_leaves(c)]
+        if min(ys) > 1 and max(ys) < n:
+            return True
+    return False
+
+
+def restructurings(ctx):
+    """(witness, non-trivial key) of the clause current_structure"""
+    b = BOUNDS(ctx)
+    capped = 0
+    for spec in tg.enum_specs(b["gap_changing_moves_n"]):
+        n = len(tg.spec_leaves(spec))
+        yield {"spec": spec, "op": "root_attach"}, \
+            ("ra", tg.spec_str(spec)) if _changes_after_root_attach(spec) else None
+        for mv, ch in R.moves_with_changes(spec):
+            if n > b["all_moves_n"]:
+                if not ch:
+                    continue
+                if b["gap_changing_moves_cap"] is not None:
+                    capped += 1
+                    if capped > b["gap_changing_moves_cap"]:
+                        continue
+            yield {"spec": spec, "move": mv}, (tg.spec_str(spec), R.move_str(spec, mv)) if ch else None
+
+
 def generate(ctx):
     b = BOUNDS(ctx)
+    for w, k in restructurings(ctx):
+        yield "current_structure", w, k
     batch = []
     for spec in tg.enum_specs(b["exhaustive_shapes_n"]):
         k = _nt(spec)
@@ -205,10 +325,17 @@ def generate(ctx):
             yield "tasks", batch, tg.spec_str(batch[0])
             batch = []
     rng = ctx.rng
-    for spec in tg.random_specs(rng, b["random_trees"], 2, b["random_max_n"], unary_p=0.3, shuffle=True):
+    # drawn first, so that the sampling of moves below does not alter the trees
+    randoms = list(tg.random_specs(rng, b["random_trees"], 2, b["random_max_n"], unary_p=0.3, shuffle=True))
+    for spec in randoms:
         k = _nt(spec)
         for c in TREE_CLAUSES:
             yield c, spec, k
+        yield "current_structure", {"spec": spec, "op": "root_attach"}, \
+            ("ra", tg.spec_str(spec)) if _changes_after_root_attach(spec) else None
+        changing = [mv for mv, ch in R.moves_with_changes(spec) if ch]
+        for mv in rng.sample(changing, min(len(changing), b["moves_per_random_tree"])):
+            yield "current_structure", {"spec": spec, "move": mv}, (tg.spec_str(spec), R.move_str(spec, mv))
 
 
 def exhaustive(ctx):
